@@ -357,8 +357,31 @@ func c16Receiver(c *core.Ctx, rrc *ssa.Function) {
 			continue
 		}
 		v := facts.RetVal(r, 0)
-		call, ok := v.(*ssa.Call)
-		if !ok || !call.Call.IsInvoke() || methName(call.Call.Method.Name()) != "mkErr" {
+		isMkErr := func(v ssa.Value) bool {
+			call, ok := v.(*ssa.Call)
+			return ok && call.Call.IsInvoke() && methName(call.Call.Method.Name()) == "mkErr"
+		}
+		synth := isMkErr(v)
+		if ex, isEx := v.(*ssa.Extract); isEx && !synth {
+			// or produced by a private helper that does nothing but build such an error
+			if hc, isCall := ex.Tuple.(*ssa.Call); isCall {
+				h := hc.Call.StaticCallee()
+				if h != nil && h.Origin() != nil {
+					h = h.Origin() // the generic body
+				}
+				if h != nil && h.Blocks != nil && len(privateCallSites(h)) > 0 {
+					all, k := true, 0
+					for _, hr := range returnsOf(h) {
+						k++
+						if ex.Index >= len(hr.Results) || !isMkErr(facts.RetVal(hr, ex.Index)) {
+							all = false
+						}
+					}
+					synth = all && k > 0
+				}
+			}
+		}
+		if !synth {
 			continue
 		}
 		n++
